@@ -463,15 +463,26 @@ def check_re(spec):
         return bad("re:keys", [sorted(rec.keys())], [key])
     r = rec[key][idx]
     ncalls = len(calls)
-    pts = list(GRID17) + [x0, x0 + 2 * PI, x0 - 2 * PI, x0 + 1e-9, 0.0]
+    translates = [x0 + 2 * PI, x0 - 2 * PI]       # one period away from the (zero-)shift point
+    pts = list(GRID17) + [x0, x0 + 1e-9, 0.0]
     worst, at = 0.0, None
     for t in pts:
-        v = float(r(pnp.array(t)))
+        v = r(pnp.array(t))
+        if v is None:
+            return bad(f"re:returns-None:{mode}:{fname}", {"at": t, "f0_given": bool(spec.get("f0"))}, other(t))
+        v = float(v)
         e = abs(v - other(t)) if v == v else float("inf")
         if e > worst:
             worst, at = e, t
     if worst > 1e-8:
         return bad(f"re:mismatch:{mode}:{fname}", {"max_err": worst, "at": at, "x0": x0}, "reconstruction == function (1e-8)")
+    tw = 0.0
+    for t in translates:
+        v = float(r(pnp.array(t)))
+        tw = max(tw, abs(v - other(t)) if v == v else float("inf"))
+    if tw > 1e-8:
+        return bad(f"re:period-translate-of-shift-point:{mode}", {"max_err": tw, "at": translates, "x0": x0, "R": spec.get("R")},
+                   "reconstruction == function everywhere (1e-8)")
     if ncalls > nshift + 1:
         return bad(f"re:too-many-evaluations:{mode}", ncalls, f"<= {nshift} (+1 for f0)")
     return ok(outcome=[fname, mode, ncalls, int(round(-math.log10(max(worst, 1e-17))))], nontrivial=bool(terms))
@@ -541,7 +552,7 @@ def run(ctx):
     n = 2 if q else 3
     if only in (None, "cs"):
         specs = [{"k": "cs", "w": w} for w in words(sorted(CS_ALPHA), n, 1)]
-        specs += [{"k": "cs", "w": w, "enc": enc} for w in words(sorted(CS_ALPHA), 1, 1) + [["rx0a", "ps0b"], ["crx01a", "crx01a"]]
+        specs += [{"k": "cs", "w": w, "enc": enc} for w in list(words(sorted(CS_ALPHA), 1, 1)) + [["rx0a", "ps0b"], ["crx01a", "crx01a"]]
                   for enc in (["a"], ["b", "nope"])]
         ctx.enumerate(specs, fn="check_cs", axis="circuit_spectrum", chunk=4)
     if only in (None, "qs"):
